@@ -10,6 +10,7 @@
 #include <fstream>
 #include <iostream>
 #include <set>
+#include <vector>
 
 #include "cctz/time_zone.h"
 #include "trace.h"
@@ -88,7 +89,10 @@ int main(int argc, char** argv) {
     time_zone d;
     printf("{\"e\":\"Default\",\"eq\":%d,\"look\":%s}\n", d == utc_time_zone() ? 1 : 0, looks(d).c_str());
   }
-  {
+  // VT_CLOSE_STDIN: the process runs as daemons do, with descriptor 0 closed before its first load (the first
+  // file the loader opens then IS descriptor 0); VT_NO_LOCAL: the first load is a named one, not the local zone
+  if (getenv("VT_CLOSE_STDIN")) close(0);
+  if (!getenv("VT_NO_LOCAL")) {
     time_zone l = local_time_zone();
     const char* tz = getenv("TZ");
     std::string n = tz ? tz : ":localtime";   // only used to choose which paths to record (superset)
@@ -104,9 +108,13 @@ int main(int argc, char** argv) {
            bj(l.name()).c_str(), l == utc_time_zone() ? 1 : 0, looks(l).c_str(), fsj.c_str());
   }
   auto resolve_all = [&](const char* file) {
-    std::ifstream in(file);
-    std::string line;
-    while (std::getline(in, line)) {
+    std::vector<std::string> lines;
+    {   // read and close first: the list must not occupy a descriptor while the loader works
+      std::ifstream in(file);
+      std::string line;
+      while (std::getline(in, line)) lines.push_back(line);
+    }
+    for (const std::string& line : lines) {
       std::string name = unhex(line);
       time_zone tz;
       bool ok = load_time_zone(name, &tz);
